@@ -449,6 +449,48 @@ let run_w args =
     describe_deser evs (List.map (fun d -> n_of_int (int_of_string d)) data) mode
   | _ -> "BAD-CASE"
 
+(* ------------------------------------------------------------------------------------------ *)
+(* `V <kind> <reprs> | <variants>` (C17): the derive macro on an abstract definition *)
+let run_v args =
+  match args with
+  | kind :: reprs :: "|" :: vs ->
+    let k = match kind with "e" -> IEnum | "s" -> IStruct | _ -> IUnion in
+    let rs = if reprs = "-" then [] else List.map (fun r -> if r = "u32" then RU32 else ROther) (String.split_on_char ',' reprs) in
+    let parse_variant (v : string) : variant =
+      let f = v.[0] = '1' and d = v.[1] = '1' in
+      let rest = String.sub v 2 (String.length v - 2) in
+      let attrs = List.filter (fun a -> a <> "") (String.split_on_char ';' rest) in
+      { v_fields = f; v_discr = d; v_attrs = List.map (fun a -> match a.[0] with
+            | 'L' -> SListLit (parse_text (String.sub a 1 (String.length a - 1)))
+            | 'N' -> SListNonLit | 'P' -> SPath | _ -> SNameValue) attrs } in
+    let d = { d_kind = k; d_reprs = rs; d_variants = List.map parse_variant vs } in
+    (match expand d with
+     | None -> "REJECT"
+     | Some texts ->
+       let n = List.length d.d_variants in
+       let raws = List.init n (fun i -> string_of_int (int_of_n (into_raw (nat_of_int i)))) in
+       let froms = List.init (n + 3) (fun r -> match from_raw (nat_of_int n) (n_of_int r) with
+           | Ok v -> string_of_int (int_of_nat v) | Panic _ -> "P") in
+       let txts = List.init n (fun i -> match static_text_of texts (nat_of_int i) with Some t -> "=" ^ show_text t | None -> "-") in
+       Printf.sprintf "ACCEPT n=%d raw=%s from=%s texts=%s" n (String.concat "," raws) (String.concat "," froms) (String.concat ";" txts))
+  | _ -> "BAD-CASE"
+
+(* `A ...` (C08): Send / Sync verdicts *)
+let run_a args =
+  let bits s = (String.length s > 0 && s.[0] = 'T', String.length s > 1 && s.[1] = 'T') in
+  let verdict b = if b then "accept" else "reject" in
+  match args with
+  | ["handle"; _h; _w; wbits; tr] | ["gen"; _h; _w; wbits; tr] ->
+    let (ds, dy) = bits wbits in
+    let a = { d_send = ds; d_sync = dy; r_send = true; r_sync = true } in
+    verdict (if tr = "Send" then is_send node_send_bounds a else is_sync node_sync_bounds a)
+  | ["ctor"; _which; _r; rbits] ->
+    let (rs, ry) = bits rbits in
+    let a = { d_send = true; d_sync = true; r_send = rs; r_sync = ry } in
+    verdict (constructible ctor_resolver_bounds a)
+  | ["green"; _t; _tr] -> verdict green_token_unconditional
+  | _ -> "BAD-CASE"
+
 let run_line line =
   match List.filter (fun s -> s <> "") (String.split_on_char ' ' line) with
   | [] -> ""
@@ -458,7 +500,9 @@ let run_line line =
   | "G" :: args -> run_g args
   | "Y" :: args -> run_y args
   | "I" :: args -> run_i args
+  | "A" :: args -> run_a args
   | "Q" :: args -> run_q args
+  | "V" :: args -> run_v args
   | "Z" :: args -> run_z args
   | "W" :: args -> run_w args
   | "N" :: args -> run_n args
